@@ -361,6 +361,8 @@ def partial_input_scripts(ck, tier: str) -> None:
             if rng.random() < 0.3:
                 script.append(("adv", rng.choice([1, 1500])))
             script.append(rng.choice([("eof",), ("eof",), ("rst",)]))
+            if i % 4 == 0:
+                script.append(("burn", rng.choice([254, 255, 255])))      # the probe commands straddle the counter wrap
             script += PROBE
             pid0, out = sockcorr.run_impl(gen, script)
             n += 1
